@@ -237,7 +237,7 @@ func ruleLastClose(c *Ctx, m *multiModel) {
 			c.Check("LASTCLOSE", m.T+":zero-test", p.Pos(r.Pos()), false, "the release closure has no count == 0 test")
 			continue
 		}
-		closeSock := methodCallOnField(p, "Close", m.T, m.sockField)
+		closeSock := methodCallOnField(p, "Close", m.sockT, m.sockField)
 		for _, e := range sortedEdges(zero) {
 			ok, bad := eng.MustPass(edgePoint(e), closeSock)
 			c.Check("LASTCLOSE", m.T+":socket-closed-at-zero", blockPos(p, e.To), ok, fmt.Sprintf("on the count == 0 edge the closure can return at %s without closing the shared socket", p.IPos(bad)))
